@@ -126,6 +126,10 @@ def spill_regs(
                 block.ops.append(DecRef(dec))
 
             if op in spill_locs:
+                if op.is_borrowed and op.type.is_refcounted:
+                    # The environment owns what it stores, and a borrowed value has
+                    # no reference to give away.
+                    block.ops.append(IncRef(op))
                 # XXX: could we set uninit?
                 block.ops.append(SetAttr(env_reg, spill_locs[op], op, op.line))
 
